@@ -156,6 +156,15 @@ def run_job(job):
             os.symlink(str(work / "linktarget.bin"), str(dst))
         elif job["dst"] == "same":
             dst = base
+        # bystanders: unrelated files next to the destination under the names a careless staging scheme would pick
+        bystanders = {}
+        for suffix in (".part", ".tmp", ".bak", "~", ".new", ".partial"):
+            q = work / ("out.scx" + suffix)
+            q.write_bytes(b"somebody else's file " + suffix.encode())
+            bystanders[q.name] = sha(q)
+        hidden = work / ".out.scx.swp"
+        hidden.write_bytes(b"hidden bystander")
+        bystanders[hidden.name] = sha(hidden)
         mpq_io = StarCraftMpqIoHelper.create_mpq_io()
         wav_io = StarCraftMpqIoHelper.create_wav_io()
         wrapper = StormLibHelper.load_stormlib()
@@ -215,12 +224,14 @@ def run_job(job):
         else:
             dclass = "new" if os.path.getsize(dst) > 100 else "broken"
         leftovers = sorted(os.listdir(tmpd)) + sorted(p.name for p in work.iterdir()
-                                                       if p.name not in ("tmp", "base.scx", "out.scx", "linktarget.bin") and not p.name.startswith("sound"))
+                                                       if p.name not in ("tmp", "base.scx", "out.scx", "linktarget.bin") and not p.name.startswith("sound")
+                                                       and p.name not in bystanders)
+        disturbed = sorted(nm for nm, h in bystanders.items() if sha(work / nm) != h)
         if job["dst"] == "symlink" and dclass == "unchanged" and not os.path.islink(dst):
             dclass = "changed"
         return {"exc": exc, "base_unchanged": sha(base) == before["base"] if job["dst"] != "same" else None,
                 "audio_unchanged": [sha(a) for a in audio] == before["audio"], "dst": dclass,
-                "leftovers": leftovers, "steps": inj.n, "log": inj.log}
+                "leftovers": leftovers, "bystanders_disturbed": disturbed, "steps": inj.n, "log": inj.log}
     finally:
         tempfile.tempdir = old_tmp
         shutil.rmtree(work, ignore_errors=True)
